@@ -152,6 +152,13 @@ theorem restart_wet (rc : Nat) :
 /-- dry returns what a successful wet restart returns -/
 theorem restart_dry_same_control : (runRestart { dry := true } 0).2 = (runRestart { dry := false } 0).2 := rfl
 
+/-- ... and holds its ruleset off exactly as long: the dry run sleeps `post_action_delay` like a successful wet restart,
+    whatever the D-Bus call would have returned -/
+theorem restart_dry_same_pause (d rc : Nat) :
+    restartSleep { dry := true, delay := d } rc = restartSleep { dry := false, delay := d } 0 ∧
+    restartSleep { dry := true, delay := d } rc = d := by
+  simp [restartSleep]
+
 /-! ## non-vacuity: a dry and a wet run of the same configuration on the same views -/
 
 private def nd (id : Nat) (key : Int) (cs : List View := []) : View :=
